@@ -16,3 +16,47 @@ package types
 //@   ensures unknown: !ok ==> result == exported.Unknown
 //@   ensures expired: ok ==> (result == exported.Expired <==> ts + self.TrustingPeriod <u unix(now()))
 //@   ensures active:  ok ==> (result == exported.Active  <==> !(ts + self.TrustingPeriod <u unix(now())))
+//@
+//@ // ---- C08 (Merkle-Patricia account + storage proof)
+//@ spec zeros(n: i64): str
+//@ axiom zeros.zero: zeros(0) == ""
+//@ axiom zeros.succ: forall n: i64 :: 0 <=s n ==> zeros(n + 1) == zeros(n) ++ "\x00"
+//@ spec pad32(t: str): str = ite(len(t) <s 32, zeros(32 - len(t)) ++ t, t)
+//@
+//@ // the value found in the storage trie is the RLP of the 32-byte word with leading zeros stripped; it must equal the
+//@ // claimed value as a 32-byte word (a shorter claimed value, e.g. the 8-byte clean sequence, is left-padded)
+//@ func checkProofResult(result, value) (ok)
+//@   props C08
+//@   ensures def: ok <==> rlpok(str(result)) && pad32(rlpdec(str(result))) == lpad(str(value), 32)
+//@   loop #0 invariant pad: str(s) == zeros(i - len(tempBytes)) && len(tempBytes) <=s i && (i == len(tempBytes) || i <=s 32)
+//@   loop #0 decreases 32 - i
+//@
+//@ // verifyMerkleProof: the account proof shows that the contract's account (nonce, balance, storage root, code hash) is in
+//@ // the state trie whose root the consensus state recorded; there is exactly one storage proof, its slot is the
+//@ // protocol-defined key, and the storage trie maps keccak(slot) to the claimed value.
+//@ func verifyMerkleProof(ethProof, consensusState, contractAddr, commitment, proofKey) (err)
+//@   props C08
+//@   let sh    = hash32(fromhex(ethProof.StorageHash))
+//@   let acct  = rlpenc(ProofAccount, hashbig(hash32(fromhex(ethProof.Nonce))), hashbig(hash32(fromhex(ethProof.Balance))), sh, hash32(fromhex(ethProof.CodeHash)))
+//@   let spKey = hash32(fromhex(as(seqobj(ethProof.StorageProof, 0), StorageResult).Key))
+//@   ensures sound.account: err == nil ==> fromhex(ethProof.Address) == str(contractAddr) && intrie(hash32(str(consensusState.Root)), keccak(fromhex(ethProof.Address)), acct)
+//@   ensures sound.one:     err == nil ==> len(ethProof.StorageProof) == 1
+//@   ensures sound.slot:    err == nil ==> spKey == str(proofKey)
+//@   ensures sound.value:   err == nil ==> (exists v: str :: intrie(sh, keccak(str(proofKey)), v) && rlpok(v) && pad32(rlpdec(v)) == lpad(str(commitment), 32))
+//@   loop #0 invariant t: true
+//@   loop #1 invariant t: true
+//@
+//@ spec ethVerified(cs: obj, S: store, c: str, rev: u64, h: u64, proof: bytes, key: str, value: str): bool
+//@ func (ClientState).VerifyPacketCommitment(ctx, store, cdc, height, proof, sourceChain, destChain, sequence, commitment) (err)
+//@   props C08
+//@   dyn height = clienttypes.Height
+//@   let c     = clientOf(store)
+//@   let co    = tibc[consState(c, height.RevisionNumber, height.RevisionHeight)]
+//@   let cobj  = clienttypes.consDecode(val(co))
+//@   ensures height.bound: err == nil ==> !(self.Header.Height.RevisionNumber <u height.RevisionNumber || (self.Header.Height.RevisionNumber == height.RevisionNumber && self.Header.Height.RevisionHeight <u height.RevisionHeight))
+//@   ensures state.known:  err == nil ==> present(co) && clienttypes.decodesCons(val(co)) && isa(cobj, ConsensusState)
+//@   ensures delay:        err == nil ==> self.Header.Height.RevisionHeight - height.RevisionHeight >=u self.GetDelayBlock()
+//@   ensures verified:     err == nil ==> ncalls(verifyMerkleProof) == 1 && (forall v in calls(verifyMerkleProof) :: v.err == nil &&
+//@                            v.consensusState.Root == as(cobj, ConsensusState).Root && v.contractAddr == self.ContractAddress && v.commitment == commitment &&
+//@                            str(v.proofKey) == keccak(keyrepr(commit(sourceChain, destChain, sequence)) ++ lpad(bigbytes(104), 32)) &&
+//@                            v.ethProof == as(jsondec(str(proof)), Proof))
